@@ -18,7 +18,20 @@ EDITS = {
                        "\tif a.record.Timestamp == b.record.Timestamp {\n\t\treturn a.iterIdx > b.iterIdx\n\t}\n\treturn a.record.Timestamp < b.record.Timestamp\n", ["C04", "C14", "C15", "C18", "C02"]),
     "stable-sort": ("internal/logql/logqlengine/eval_streams.go", "slices.SortFunc(stream.Values,", "slices.SortStableFunc(stream.Values,", ["C01", "C08", "C18", "C19"]),
     "wider-since": ("internal/dockerlog/dockerlog.go", "since = strconv.FormatInt(t.Unix(), 10)", "since = strconv.FormatInt(t.Unix()-1, 10)", ["C02", "C14", "C16", "C09"]),
+    # the exact start instead of its whole second: not narrower, not shifted
+    "exact-since": ("internal/dockerlog/dockerlog.go", "since = strconv.FormatInt(t.Unix(), 10)",
+                    "since = strconv.FormatInt(t.Unix(), 10) + \".\" + strconv.FormatInt(int64(t.Nanosecond())+1000000000, 10)[1:]", ["C02", "C04", "C09", "C14", "C16"]),
+    # every failed open is remembered under a lock and reported together: no race, still an error
+    "open-errors-under-a-lock": ("internal/dockerlog/dockerlog.go",
+                    "\t\t\t\tif err != nil {\n\t\t\t\t\treturn errors.Wrapf(err, \"open container %q log\", ctr.ID)\n\t\t\t\t}\n",
+                    "\t\t\t\tif err != nil {\n\t\t\t\t\tfailedMu.Lock()\n\t\t\t\t\tfailed = append(failed, ctr.ID)\n\t\t\t\t\tfailedMu.Unlock()\n\t\t\t\t\treturn errors.Wrapf(err, \"open container %q log\", ctr.ID)\n\t\t\t\t}\n",
+                    ["C14", "C18", "C04"]),
     "tail-omitted": ("internal/dockerlog/dockerlog.go", "\t\tTail:       \"all\",\n", "", ["C02", "C04", "C14"]),
+}
+# further replacements in the same file, applied with the edit
+EXTRA = {
+    "open-errors-under-a-lock": [("\t\tvar grp errgroup.Group\n", "\t\tvar grp errgroup.Group\n\t\tvar (\n\t\t\tfailedMu sync.Mutex\n\t\t\tfailed   []string\n\t\t)\n\t\tdefer func() { _ = failed }()\n"),
+                                 ("import (\n", "import (\n\t\"sync\"\n")],
 }
 def sh(*a, **k):
     return subprocess.run(a, capture_output=True, text=True, errors="replace", **k)
@@ -32,7 +45,12 @@ for name in names:
     src = open(full).read()
     if old not in src:
         print(f"{name}: pattern not found in {path}"); bad += 1; continue
-    open(full, "w").write(src.replace(old, new, 1))
+    src2 = src.replace(old, new, 1)
+    for o2, n2 in EXTRA.get(name, []):
+        if o2 not in src2:
+            print(f"{name}: extra pattern not found"); bad += 1
+        src2 = src2.replace(o2, n2, 1)
+    open(full, "w").write(src2)
     try:
         b = sh("go", "build", "./...", cwd=REPO, env=dict(os.environ, GOFLAGS="-mod=mod", GOPROXY="off", GOSUMDB="off", GOTOOLCHAIN="local"))
         if b.returncode != 0:
